@@ -54,7 +54,8 @@ def run(v, sim=hgsim, prop=PROP, coq_import=COQ_IMPORT, proj=PROJ, oracle_histor
         klass="Hypergraph"):
     proof = base.proof_stage(v, prop)
     p = params()
-    recs = HC.gen_histories(sim, p["n_cases"], p["max_len"], C.seed(), corpus=HC.load_corpus(prop))
+    recs = HC.gen_histories(sim, p["n_cases"], p["max_len"], C.seed(), corpus=HC.load_corpus(prop),
+                            iter_share=0.2 if getattr(sim, "ITER_OK", False) else 0.0)
     # oracle on every observed state
     failures = []
     for r in recs:
@@ -64,20 +65,22 @@ def run(v, sim=hgsim, prop=PROP, coq_import=COQ_IMPORT, proj=PROJ, oracle_histor
             ops = r["ops"][:i + 1]
             sig = f"{klass}.{ops[-1][0]}: {d.split(' ')[0]} {d.split(' ')[-4:]}"
             failures.append((f"{prop}:{klass}.{ops[-1][0]}:{r['excs'][i] or 'returns'}",
-                             {"what": d, "history": HC.jsonable(ops), "step": i,
+                             {"what": d, "history": HC.jsonable(ops), "step": i, "iter_salt": r.get("iter_salt"),
                               "replay_cmd": f"./check {prop} --replay <this file>"}))
     mism, errors = HC.eval_histories(prop, sim, recs, coq_import, proj)
     reports = []
     for ci, si in mism[:3]:
         ops = recs[ci]["ops"][:si + 1]
-        small = HC.shrink(prop, sim, ops, coq_import, proj)
-        r, mtrace = HC.model_trace(prop, sim, small, coq_import)
+        salt = recs[ci].get("iter_salt")
+        with C.presenting(salt):
+            small = HC.shrink(prop, sim, ops, coq_import, proj)
+            r, mtrace = HC.model_trace(prop, sim, small, coq_import)
         f = oracle_history(r)
         if f:
             i, d = f
             failures.append((f"{prop}:{klass}.{small[i][0]}:{r['excs'][i] or 'returns'}",
-                             {"what": d, "history": HC.jsonable(small[:i + 1]), "step": i}))
-        reports.append({"correspondence": f"{coq_import}.mismatches {proj}", "history": HC.jsonable(small),
+                             {"what": d, "history": HC.jsonable(small[:i + 1]), "step": i, "iter_salt": salt}))
+        reports.append({"correspondence": f"{coq_import}.mismatches {proj}", "history": HC.jsonable(small), "iter_salt": salt,
                         "implementation_observations": HC.jsonable([dict(o, nodes=o.get("nodes"), edges=o.get("edges")) for o in r["obs"]]),
                         "implementation_outcomes": r["excs"], "model_trace": mtrace})
     for ci, si in mism[3:]:
@@ -92,6 +95,7 @@ def run(v, sim=hgsim, prop=PROP, coq_import=COQ_IMPORT, proj=PROJ, oracle_histor
                 "changes the node/edge tables at least once; distinct = by op list hash",
         "samples": [HC.jsonable(r["ops"][:6]) for r in recs[:3]],
         "oracle_evaluations": sum(len(r["obs"]) for r in recs),
+        "histories_with_members_presented_as_tuples_or_one_shot_iterators": sum(1 for r in recs if r.get("iter_salt")),
         "exhaustive": False,
         **st,
     })
